@@ -56,7 +56,10 @@ def zero_length(rep, tier, sd):
 
 
 def run(tier):
-    return sim.sim_run("C17", tier, sim.check_c17, inject=True, extra_units=[], extra=zero_length)
+    # "fails loudly": the error paths of the event handling (negative SoC, unknown vehicle, ...) are part of the events model,
+    # so its correspondence unit belongs to this check too (round-3 seed C17-s8)
+    import c07
+    return sim.sim_run("C17", tier, sim.check_c17, inject=True, extra_units=[c07.UNIT], n_kernel=(300, 3000), extra=zero_length)
 
 
 def replay(payload):
@@ -65,6 +68,9 @@ def replay(payload):
         rep = C.Report("C17", "quick")
         zero_length(rep, "quick", C.seed())
         return 1 if rep.violations else 0
+    if payload["input"].get("unit") in ("events", "weekly"):
+        import c07
+        return c07.replay(payload)
     if payload["input"].get("unit") == "kernel":
         out = kernel.UNIT.run_impl(payload["input"]["case"])
         v = kernel.UNIT.check_property(payload["input"]["case"], out)
